@@ -134,12 +134,16 @@ def _repo_root() -> str:
 
 
 def innermost_repo_frame(tb: Any) -> str:
-    """'<file>:<function>' of the innermost frame inside the repository (no line numbers: structural key)."""
+    """'<file>:<qualified function>' of the innermost frame inside the repository (no line numbers: the
+    key stays put when unrelated lines move)."""
     last = ""
     root = _repo_root().rstrip("/") + "/"
-    for f in traceback.extract_tb(tb):
-        if f.filename.startswith(root) and "/harness/" not in f.filename:
-            last = "%s:%s" % (f.filename[len(root) :], f.name)
+    while tb is not None:
+        code = tb.tb_frame.f_code
+        fn = code.co_filename
+        if fn.startswith(root) and "/harness/" not in fn:
+            last = "%s:%s" % (fn[len(root) :], getattr(code, "co_qualname", code.co_name))
+        tb = tb.tb_next
     return last
 
 
